@@ -112,6 +112,68 @@ def plan(pid, tier, seed):
             return out
         P["gen"].append(g)
         P["need"] = dict(calls=500)
+    elif pid == "C07":
+        mc("MC_Conc", "MC_C07_q.cfg" if q else "MC_C07_t.cfg", 1000 if q else 8000, add_obs)
+
+        def g():
+            out = []
+            for k in range(80 if q else 800):
+                cfg = gen.cfg_choices(rng, True)
+                out.append(dict(mode="jitter", tag="cache", steps=gen.cache_history(rng, 25 if q else 60, cfg, readers=True)))
+            return out
+        P["gen"].append(g)
+        P["need"] = dict(obs=1000, reads=200)
+    elif pid == "C15":
+        def post(steps, r):
+            return add_obs(steps, r) + [{"a": "wait_idle"}, {"a": "drain"}]
+        mc("MC_Conc", "MC_C07_q.cfg" if q else "MC_C07_t.cfg", 1000 if q else 8000, post)
+
+        def g():
+            out = []
+            for k in range(80 if q else 800):
+                cfg = gen.cfg_choices(rng, True)
+                out.append(dict(mode="jitter", tag="cache", steps=gen.cache_history(rng, 25 if q else 60, cfg)))
+            return out
+        P["gen"].append(g)
+        P["need"] = dict(obs=1000)
+    elif pid == "C04":
+        mc("MC_Conc", "MC_C04_q.cfg" if q else "MC_C04_t.cfg", 1500 if q else 12000)
+
+        def g():
+            out = []
+            for k in range(100 if q else 1000):
+                cfg = gen.cfg_choices(rng)
+                out.append(dict(mode=rng.choice(["free", "jitter"]), tag="flush",
+                                steps=gen.flush_history(rng, 30 if q else 80, cfg, faults=rng.choice([0, 0, 1, 2, 3]))))
+            return out
+        P["gen"].append(g)
+        P["need"] = dict(cbs=1500)
+    elif pid == "C08":
+        mc("MC_Conc", "MC_C08_q.cfg", 800 if q else 3000)
+        mc("MC_Conc", "MC_C08_f.cfg" if q else "MC_C08_t.cfg", 800 if q else 8000)
+
+        def g():
+            out = []
+            for k in range(100 if q else 1000):
+                cfg = gen.cfg_choices(rng)
+                if "mr" not in cfg and "ms" not in cfg:
+                    cfg["mr"] = rng.choice([2, 3, 4])
+                out.append(dict(mode=rng.choice(["free", "jitter"]), tag="purge",
+                                steps=gen.purge_history(rng, 30 if q else 80, cfg, faults=rng.choice([0, 0, 0, 1, 2]))))
+            return out
+        P["gen"].append(g)
+        P["need"] = dict(unlinks=300)
+    elif pid == "C14":
+        mc("MC_Conc", "MC_C14_q.cfg" if q else "MC_C14_t.cfg", 600 if q else 5000)
+
+        def g():
+            out = []
+            for k in range(60 if q else 600):
+                v = ["cb", "nf", "unlink", "unlink2", "done"][k % 5]
+                out.append(dict(mode="gated", tag="drop:" + v, steps=gen.drop_scenario(rng, v)))
+            return out
+        P["gen"].append(g)
+        P["need"] = dict(opens=200, unlinks=50)
     else:
         raise vlib.ToolError("no plan for property %s" % pid)
     return P
